@@ -246,11 +246,12 @@ func (api *API) ServeGraphQLWS(w http.ResponseWriter, r *http.Request) {
 
 	handler.Connection = connection
 
+	// The connection is registered and started under the lock: CloseHijackedConnections must not see
+	// (and try to close) a connection that isn't being served yet.
 	api.graphqlWSConnectionsMutex.Lock()
 	api.graphqlWSConnections[connection] = struct{}{}
-	api.graphqlWSConnectionsMutex.Unlock()
-
 	connection.Serve(conn)
+	api.graphqlWSConnectionsMutex.Unlock()
 }
 
 // CloseHijackedConnections closes connections hijacked by ServeGraphQLWS.
